@@ -97,6 +97,8 @@ impl Property for C11 {
         dp.max_base = tier.pick(6, 12);
         dp.max_compound = 2;
         dp.boundaries = true;
+        // every word is read under all 1,024 subsets: keep the homograph family small here (C04 / C10 carry the big one)
+        dp.homographs = 12;
         dp.max_user_entries = 4;
         (world(dp, CfgParams::full()), vec(pieces_long(tier.pick(8, 20)), 1..=3), vec(prop_oneof![0u16..1024, (0u16..1024).prop_map(|x| x | 13)], 4), prop::bool::weighted(0.3), 0u8..3)
             .prop_map(|((dic, cfg), texts, subsets, legacy, order)| Case { dic, cfg, texts, subsets, legacy, order })
